@@ -1,5 +1,6 @@
 CONSTANT Merge = "shareddefault"
 CONSTANT MaxOps = 2
+CONSTANT NPairs = 4
 CONSTANT NTrees = 2
 CONSTANT NKw = 4
 CONSTANT WithPut = FALSE
